@@ -55,8 +55,11 @@ class FileSystemArtifactStore(SerializedArtifactStore):
         if len(self._get_glob(node_id)):
             raise ArtifactFileAlreadyExists(f'Artifact file for {node_id} already exists')
 
-        with Path(self._ensure_dir() / f'{node_id}.{fmt.value}').open('wb') as file:  # noqa: ASYNC101
-            serializer_factory.from_data_format(fmt).dump(data, file)
+        serializer = serializer_factory.from_data_format(fmt)
+        mode, encoding = ('wb', None) if serializer.is_binary else ('w', 'utf-8')
+
+        with Path(self._ensure_dir() / f'{node_id}.{fmt.value}').open(mode, encoding=encoding) as file:  # noqa: ASYNC101
+            serializer.dump(data, file)
 
     @dont_use_for_prod
     async def load(self, node_id: NodeId) -> NodeResultT:
@@ -65,5 +68,8 @@ class FileSystemArtifactStore(SerializedArtifactStore):
         if not len(glob):
             raise ArtifactFileDoesNotExist(f'Artifact file for {node_id} does not exist')
 
-        with Path(glob[0]).open('rb') as file:  # noqa: ASYNC101
-            return serializer_factory.from_extension(glob[0].suffix[1:]).load(file)
+        serializer = serializer_factory.from_extension(glob[0].suffix[1:])
+        mode, encoding = ('rb', None) if serializer.is_binary else ('r', 'utf-8')
+
+        with Path(glob[0]).open(mode, encoding=encoding) as file:  # noqa: ASYNC101
+            return serializer.load(file)
